@@ -1277,12 +1277,19 @@ impl LSMIterator for TransactionRangeIterator<'_> {
 			self.direction = MergeDirection::Forward;
 			self.is_key_equal = false;
 
-			if !self.snapshot_iter.valid() || !self.ws_valid() {
-				self.seek_ws_first();
-			} else if self.current_source == CurrentSource::Snapshot {
-				self.advance_ws();
-			} else {
+			// Re-position only the side that is NOT current: it sits before the
+			// current key (or is exhausted at the front), so step it forward once,
+			// or restart it from the first entry when exhausted.
+			if self.current_source == CurrentSource::Snapshot {
+				if self.ws_valid() {
+					self.advance_ws();
+				} else {
+					self.seek_ws_first();
+				}
+			} else if self.snapshot_iter.valid() {
 				self.snapshot_iter.next()?;
+			} else {
+				self.snapshot_iter.seek_first()?;
 			}
 
 			// Check if now at equal keys
@@ -1324,12 +1331,17 @@ impl LSMIterator for TransactionRangeIterator<'_> {
 			self.direction = MergeDirection::Backward;
 			self.is_key_equal = false;
 
-			if !self.snapshot_iter.valid() || !self.ws_valid() {
-				self.seek_ws_last();
-			} else if self.current_source == CurrentSource::Snapshot {
-				self.advance_ws();
-			} else {
+			// Mirror of next(): re-position only the non-current side.
+			if self.current_source == CurrentSource::Snapshot {
+				if self.ws_valid() {
+					self.advance_ws();
+				} else {
+					self.seek_ws_last();
+				}
+			} else if self.snapshot_iter.valid() {
 				self.snapshot_iter.prev()?;
+			} else {
+				self.snapshot_iter.seek_last()?;
 			}
 
 			// Check if now at equal keys
